@@ -23,6 +23,8 @@ type summary struct {
 	key       string
 	nparams   int
 	mut, keep []bool
+	stores    []uint64 // per parameter p: the parameters (bits, and opaqueBit) the callee stores INTO the object p
+	paramReg  []int    // parameter index -> register in the callee's body (-1: reaches no bytes)
 	res       []resInfo
 	untr      string
 	ifaceTr   bool // interface-typed parameters have registers (internal helpers): mut/keep speak for them too
@@ -36,6 +38,12 @@ func (s *summary) equal(o *summary) bool {
 		if s.mut[i] != o.mut[i] || s.keep[i] != o.keep[i] {
 			return false
 		}
+		if i < len(s.stores) && i < len(o.stores) && s.stores[i] != o.stores[i] {
+			return false
+		}
+	}
+	if len(s.stores) != len(o.stores) {
+		return false
 	}
 	for i := range s.res {
 		if s.res[i] != o.res[i] {
@@ -182,28 +190,32 @@ func funcKey(fn *types.Func) string {
 // ---- translation of one function ---------------------------------------------------------------
 
 type bodyTr struct {
-	p           *pkgInfo
-	fd          *ast.FuncDecl
-	fn          *types.Func
-	strict      bool
-	viewOK      bool
-	regOf       map[types.Object]int
-	regNames    []string
-	paramReg    []int // callee parameter index (receiver first for methods) -> register, -1 if it reaches no bytes
-	np          int
-	cur         *[]*node
-	untr        string
-	closures    map[types.Object]*ast.FuncLit
-	tracked     map[types.Object]bool
-	ctx         []string
-	inClos      int
-	results     []*types.Var
-	resTrk      []bool
-	streamKeeps int
-	foreignSeen bool         // an object the function was handed flows, as a whole, into something it builds
-	objArg      map[int]bool // registers passed to callees as objects built here
-	mutObjArg   bool         // ... and such a callee writes through its parameter
-	body        *node
+	p                      *pkgInfo
+	fd                     *ast.FuncDecl
+	fn                     *types.Func
+	strict                 bool
+	viewOK                 bool
+	regOf                  map[types.Object]int
+	regNames               []string
+	paramReg               []int // callee parameter index (receiver first for methods) -> register, -1 if it reaches no bytes
+	np                     int
+	cur                    *[]*node
+	untr                   string
+	closures               map[types.Object]*ast.FuncLit
+	tracked                map[types.Object]bool
+	ctx                    []string
+	inClos                 int
+	results                []*types.Var
+	resTrk                 []bool
+	streamKeeps            int
+	addrSlice, derefAssign bool
+	paramType              map[int]types.Type            // parameter register -> declared type
+	parent                 map[types.Object]types.Object // may-alias classes of object variables (union-find)
+	clsSize                map[types.Object]int
+	isParam                map[types.Object]bool
+	objRegs                map[int]bool
+	closures0              map[types.Object]*ast.FuncLit
+	body                   *node
 }
 
 func (t *bodyTr) fail(format string, args ...interface{}) {
@@ -220,6 +232,9 @@ func (t *bodyTr) newReg(name string) int {
 }
 
 func (t *bodyTr) reg(o types.Object) int {
+	if v, ok := o.(*types.Var); ok && isObjLike(v.Type()) && !v.IsField() {
+		return t.classReg(o)
+	}
 	if r, ok := t.regOf[o]; ok {
 		return r
 	}
@@ -283,8 +298,6 @@ func (t *bodyTr) stripIface(e ast.Expr) ast.Expr {
 	}
 	return e
 }
-
-func relevant(k bkind, tracked bool) bool { return k == kSlice || (k == kObj && tracked) }
 
 // refObject: a value that refers to (rather than contains) objects: pointer to struct, slice / map of objects
 func refObject(t types.Type) bool {
@@ -388,6 +401,13 @@ func (t *bodyTr) trackedCallRes(call *ast.CallExpr, i int) bool {
 
 func (t *bodyTr) trackedExpr(e ast.Expr) bool {
 	switch e := unparen(e).(type) {
+	case *ast.TypeAssertExpr:
+		if c, ok := unparen(e.X).(*ast.CallExpr); ok {
+			if fn, _, _ := t.calleeOf(c); fn != nil && fn.FullName() == "google.golang.org/protobuf/proto.Clone" {
+				return true
+			}
+		}
+		return false
 	case *ast.CompositeLit:
 		return true
 	case *ast.UnaryExpr:
@@ -403,14 +423,14 @@ func (t *bodyTr) trackedExpr(e ast.Expr) bool {
 			return true
 		}
 		if o := t.p.info.ObjectOf(e); o != nil {
-			return t.tracked[o]
+			return t.tracked[t.find(o)]
 		}
 	case *ast.SelectorExpr:
 		if sel, ok := t.p.info.Selections[e]; ok && sel.Kind() == types.FieldVal {
-			return !refObject(t.typeOf(e)) && t.trackedExpr(e.X)
+			return !immutableType(t.typeOf(e)) && !types.IsInterface(t.typeOf(e)) && t.trackedExpr(e.X)
 		}
 	case *ast.IndexExpr:
-		return !refObject(t.typeOf(e)) && t.trackedExpr(e.X)
+		return !immutableType(t.typeOf(e)) && t.trackedExpr(e.X)
 	case *ast.SliceExpr:
 		return t.trackedExpr(e.X)
 	}
@@ -432,7 +452,7 @@ func (t *bodyTr) computeTracked() {
 			return nil
 		}
 		o := t.p.info.ObjectOf(id)
-		if v, ok := o.(*types.Var); ok && kindOf(v.Type()) == kObj && !v.IsField() && v.Pkg() != nil && v.Parent() != v.Pkg().Scope() {
+		if v, ok := o.(*types.Var); ok && isObjLike(v.Type()) && !v.IsField() && v.Pkg() != nil && v.Parent() != v.Pkg().Scope() {
 			return o
 		}
 		return nil
@@ -487,7 +507,11 @@ func (t *bodyTr) computeTracked() {
 		case *ast.RangeStmt:
 			if id, ok := n.Value.(*ast.Ident); ok {
 				if o := local(id); o != nil {
-					asgs = append(asgs, asg{o: o, e: n.X})
+					if immutableType(o.Type()) {
+						asgs = append(asgs, asg{o: o, no: true})
+					} else {
+						asgs = append(asgs, asg{o: o, e: n.X})
+					}
 				}
 			}
 		}
@@ -498,18 +522,18 @@ func (t *bodyTr) computeTracked() {
 			continue
 		}
 		if local(id) != nil {
-			t.tracked[o] = true
+			t.tracked[t.find(o)] = true
 		}
 	}
 	for _, rv := range t.results {
-		if rv.Name() != "" && rv.Name() != "_" && kindOf(rv.Type()) == kObj {
-			t.tracked[rv] = true
+		if rv.Name() != "" && rv.Name() != "_" && isObjLike(rv.Type()) {
+			t.tracked[t.find(rv)] = true
 		}
 	}
 	for changed := true; changed; {
 		changed = false
 		for _, a := range asgs {
-			if !t.tracked[a.o] {
+			if !t.tracked[t.find(a.o)] {
 				continue
 			}
 			ok := !a.no
@@ -519,7 +543,7 @@ func (t *bodyTr) computeTracked() {
 				ok = t.trackedExpr(t.stripIface(a.e))
 			}
 			if !ok {
-				t.tracked[a.o] = false
+				t.tracked[t.find(a.o)] = false
 				changed = true
 			}
 		}
@@ -530,7 +554,20 @@ func (t *bodyTr) computeTracked() {
 
 // eval returns the register that shows the byte memory e denotes (-1: e reaches none), emitting
 // the effects of evaluating e.
+// evalBase: the register through which the bytes of a field / element / slice of x are reached
+func (t *bodyTr) evalBase(x ast.Expr) int {
+	if isObjLike(t.typeOf(x)) {
+		return t.evalObj(x)
+	}
+	return t.eval(x)
+}
+
 func (t *bodyTr) eval(e ast.Expr) int {
+	if isObjLike(t.typeOf(e)) {
+		if id, ok := e.(*ast.Ident); !ok || id.Name != "nil" {
+			return t.evalObj(e)
+		}
+	}
 	switch e := e.(type) {
 	case *ast.ParenExpr:
 		return t.eval(e.X)
@@ -568,7 +605,7 @@ func (t *bodyTr) eval(e ast.Expr) int {
 			t.walk(e.X)
 			return -1
 		}
-		base := t.eval(e.X)
+		base := t.evalBase(e.X)
 		if base < 0 {
 			return t.tmpOpaque(e)
 		}
@@ -581,8 +618,8 @@ func (t *bodyTr) eval(e ast.Expr) int {
 			t.walk(e.X)
 			return -1
 		}
-		base := t.eval(e.X)
-		if base < 0 || (refObject(t.typeOf(e)) && t.trackedExpr(e.X)) {
+		base := t.evalBase(e.X)
+		if base < 0 {
 			return t.tmpOpaque(e)
 		}
 		return base
@@ -592,18 +629,15 @@ func (t *bodyTr) eval(e ast.Expr) int {
 			return -1
 		}
 		if sel, ok := t.p.info.Selections[e]; ok && sel.Kind() == types.FieldVal {
-			base := t.eval(e.X)
-			if base < 0 || (refObject(t.typeOf(e)) && t.trackedExpr(e.X)) {
-				// a field that REFERS to another object (pointer, slice or map of objects): objects this
-				// function was handed may sit there, and the register of the object built here does not
-				// speak for their memory
+			base := t.evalBase(e.X)
+			if base < 0 {
 				return t.tmpOpaque(e)
 			}
 			return base
 		}
 		return t.tmpOpaque(e) // pkg.Var
 	case *ast.StarExpr:
-		base := t.eval(e.X)
+		base := t.evalBase(e.X)
 		if kindOf(t.typeOf(e)) == kNone {
 			return -1
 		}
@@ -703,7 +737,8 @@ func (t *bodyTr) checkLit(lit *ast.FuncLit) {
 // register (-1 if irrelevant), and whether it is relevant (a slice, or an object built here).
 func (t *bodyTr) relVal(e ast.Expr) (int, bool) {
 	in := t.stripIface(e)
-	k := kindOf(t.typeOf(in))
+	typ := t.typeOf(in)
+	k := kindOf(typ)
 	if k == kNone {
 		if r := t.ifaceParamReg(in); r >= 0 {
 			return r, true // an interface-typed parameter of an internal helper: whatever it carries is kept
@@ -713,12 +748,15 @@ func (t *bodyTr) relVal(e ast.Expr) (int, bool) {
 		t.walk(e)
 		return -1, false
 	}
-	rel := relevant(k, k == kObj && t.trackedExpr(in))
-	if k == kObj && !rel {
-		t.foreignSeen = true // an object this function was handed is stored or passed on as a whole
+	if isObjLike(typ) {
+		// an object built here is followed; an object the function was handed counts like a byte slice it
+		// was handed, unless its type is whitelisted as immutable
+		rel := t.trackedExpr(in) || !immutableType(typ)
+		v := t.evalObj(in)
+		return v, rel && v >= 0
 	}
 	v := t.eval(in)
-	return v, rel && v >= 0
+	return v, v >= 0
 }
 
 // ifaceParamReg: the register of an interface-typed parameter (internal helpers only), else -1
@@ -742,7 +780,6 @@ func (t *bodyTr) composite(e *ast.CompositeLit) int {
 		}
 		return t.tmpMake(e)
 	}
-	var vs []int
 	stream := false
 	if tt := typ; tt != nil {
 		if pt, ok := tt.Underlying().(*types.Pointer); ok {
@@ -752,35 +789,42 @@ func (t *bodyTr) composite(e *ast.CompositeLit) int {
 			stream = true
 		}
 	}
+	// the new object belongs to the class of the objects it refers to (if any)
+	T := -1
+	if k != kNone {
+		for _, o := range t.refRoots(e) {
+			if !t.isParam[t.find(o)] {
+				T = t.classReg(o) // the class of the local objects it refers to
+				break
+			}
+		}
+		if T < 0 {
+			T = t.objTmpMake(e)
+		}
+	}
 	for _, el := range e.Elts {
 		val := el
 		if kv, ok := el.(*ast.KeyValueExpr); ok {
 			t.walk(kv.Key)
 			val = kv.Value
 		}
-		if v, rel := t.relVal(val); rel {
-			if stream {
-				// per-stream object (io.Writer / io.Reader implementation): what it keeps is the state of
-				// one stream, not of a key, handle or primitive
-				t.streamKeeps++
-				continue
-			}
-			vs = append(vs, v)
+		v, rel := t.relVal(val)
+		if !rel {
+			continue
 		}
-	}
-	if k == kNone {
-		// an object that cannot be followed further holds byte memory: it escapes
-		for _, v := range vs {
+		switch {
+		case stream:
+			// per-stream object (io.Writer / io.Reader implementation): what it keeps is the state of
+			// one stream, not of a key, handle or primitive
+			t.streamKeeps++
+		case T < 0:
+			// an object that cannot be followed further holds byte memory: it escapes
 			t.emit(&node{op: "escape", v: v, pos: -1, why: "ret", line: t.line(e)})
+		default:
+			t.store(T, v, e)
 		}
-		return -1
 	}
-	if len(vs) == 0 {
-		return t.tmpMake(e)
-	}
-	r := t.newReg("")
-	t.emit(&node{op: "phi", r: r, vs: vs, pos: -1, line: t.line(e)})
-	return r
+	return T
 }
 
 // ---- calls -----------------------------------------------------------------------------------------
@@ -961,6 +1005,11 @@ func (t *bodyTr) inline(lit *ast.FuncLit, call *ast.CallExpr) []int {
 				t.walk(arg)
 				continue
 			}
+			if isObjLike(o.Type()) {
+				v, rel := t.relVal(arg)
+				t.assignObjVar(o, v, rel, call)
+				continue
+			}
 			r := t.reg(o)
 			if kindOf(o.Type()) == kArr {
 				t.walk(arg)
@@ -984,6 +1033,14 @@ func (t *bodyTr) inline(lit *ast.FuncLit, call *ast.CallExpr) []int {
 	return out
 }
 
+func firstArgTuple(t *bodyTr, call *ast.CallExpr) (*types.Tuple, bool) {
+	if len(call.Args) != 1 {
+		return nil, false
+	}
+	tup, ok := t.typeOf(call.Args[0]).(*types.Tuple)
+	return tup, ok
+}
+
 // argument registers per callee parameter index
 func (t *bodyTr) callArgs(call *ast.CallExpr, sig *types.Signature, recv ast.Expr) [][]int {
 	base := 0
@@ -997,26 +1054,33 @@ func (t *bodyTr) callArgs(call *ast.CallExpr, sig *types.Signature, recv ast.Exp
 		if rk == kSlice || rk == kObj {
 			if v := t.eval(recv); v >= 0 {
 				regs[0] = []int{v}
-				if rk == kObj && t.trackedExpr(recv) {
-					if t.objArg == nil {
-						t.objArg = map[int]bool{}
-					}
-					t.objArg[v] = true
-				}
 			}
 		} else {
 			t.walk(recv)
 		}
 	}
-	if len(call.Args) == 1 && np > 1 {
-		t.walk(call.Args[0]) // f(g()) with a multi-valued g
+	pidx := func(ai int) int {
+		if sig.Variadic() && ai >= np-1 {
+			return np - 1
+		}
+		return ai
+	}
+	if tup, isTuple := firstArgTuple(t, call); isTuple && tup.Len() > 1 {
+		// f(g()) with a multi-valued g: the results of g are the arguments of f
+		if inner, ok := unparen(call.Args[0]).(*ast.CallExpr); ok {
+			rs := t.doCall(inner)
+			for i, r := range rs {
+				if pi := pidx(i); r >= 0 && pi < np {
+					regs[base+pi] = append(regs[base+pi], r)
+				}
+			}
+			return regs
+		}
+		t.fail("multi-valued argument that is not a call (line %d)", t.line(call))
 		return regs
 	}
 	for ai, a := range call.Args {
-		pi := ai
-		if sig.Variadic() && ai >= np-1 {
-			pi = np - 1
-		}
+		pi := pidx(ai)
 		if pi >= np {
 			t.walk(a)
 			continue
@@ -1028,7 +1092,8 @@ func (t *bodyTr) callArgs(call *ast.CallExpr, sig *types.Signature, recv ast.Exp
 			regs[base+pi] = append(regs[base+pi], t.tmpMake(a)) // nil: nothing to share
 			continue
 		}
-		ak := kindOf(t.typeOf(in))
+		at := t.typeOf(in)
+		ak := kindOf(at)
 		if r := t.ifaceParamReg(in); r >= 0 && ak == kNone {
 			regs[base+pi] = append(regs[base+pi], r)
 			continue
@@ -1037,20 +1102,102 @@ func (t *bodyTr) callArgs(call *ast.CallExpr, sig *types.Signature, recv ast.Exp
 			t.walk(a)
 			continue
 		}
+		if pk == kNone && isObjLike(at) && !t.trackedExpr(in) && immutableType(at) {
+			t.walk(a) // an immutable object somebody else built, passed on as an interface value
+			continue
+		}
 		if v := t.eval(in); v >= 0 {
-			if pk == kNone && !relevant(ak, ak == kObj && t.trackedExpr(in)) {
-				continue // an object somebody else built, passed on as an interface value
-			}
-			if ak == kObj && t.trackedExpr(in) {
-				if t.objArg == nil {
-					t.objArg = map[int]bool{}
-				}
-				t.objArg[v] = true
-			}
 			regs[base+pi] = append(regs[base+pi], v)
 		}
 	}
 	return regs
+}
+
+// applyEffects: what the callee(s) may do with the arguments, as instructions of the caller
+func (t *bodyTr) applyEffects(call *ast.CallExpr, args [][]int, mut, keep []bool, stores []uint64) {
+	ln := t.line(call)
+	for i := range args {
+		for _, v := range args[i] {
+			if i < len(mut) && mut[i] {
+				t.emit(&node{op: "write", v: v, pos: -1, why: "mut", line: ln})
+			}
+			if i < len(keep) && keep[i] {
+				t.emit(&node{op: "escape", v: v, pos: -1, why: "ret", line: ln})
+			}
+		}
+	}
+	// the callee stores (what it reaches through) argument q into the object argument i
+	for i := range args {
+		if i >= len(stores) || stores[i] == 0 {
+			continue
+		}
+		for _, x := range args[i] {
+			if stores[i]&opaqueBit != 0 {
+				t.store(x, t.objTmpOpaque(call), call)
+			}
+			for q := 0; q < len(args) && q < 62; q++ {
+				if stores[i]&(1<<uint(q)) != 0 && q != i {
+					for _, v := range args[q] {
+						t.store(x, v, call)
+					}
+				}
+			}
+		}
+	}
+}
+
+// resultReg: the register holding result i of a call, given what the callee(s) may return
+func (t *bodyTr) resultReg(call *ast.CallExpr, typ types.Type, res resInfo, args [][]int) int {
+	ln := t.line(call)
+	var vs []int
+	opq := res.roots&opaqueBit != 0
+	for p := 0; p < len(args) && p < 62; p++ {
+		if res.roots&(1<<uint(p)) != 0 {
+			if len(args[p]) == 0 {
+				opq = true
+			}
+			vs = append(vs, args[p]...)
+		}
+	}
+	if isObjLike(typ) {
+		if !res.tracked {
+			return t.objTmpOpaque(call)
+		}
+		// the result may be one of the arguments itself, or a new object that holds them
+		T := t.objTmpMake(call)
+		if opq {
+			vs = append(vs, t.objTmpOpaque(call))
+		}
+		if len(vs) > 0 {
+			t.emit(&node{op: "phi", r: T, vs: append([]int{T}, vs...), pos: -1, line: ln})
+		}
+		return T
+	}
+	r := t.newReg("")
+	switch {
+	case !res.seen || res.roots == 0:
+		t.emit(&node{op: "make", r: r, pos: -1, line: ln})
+	case opq || len(vs) == 0:
+		t.emit(&node{op: "opaque", r: r, pos: -1, line: ln})
+	default:
+		t.emit(&node{op: "phi", r: r, vs: vs, pos: -1, line: ln})
+	}
+	return r
+}
+
+func (t *bodyTr) resultTypes(call *ast.CallExpr) []types.Type {
+	switch rt := t.typeOf(call).(type) {
+	case nil:
+		return nil
+	case *types.Tuple:
+		ts := make([]types.Type, rt.Len())
+		for i := range ts {
+			ts[i] = rt.At(i).Type()
+		}
+		return ts
+	default:
+		return []types.Type{rt}
+	}
 }
 
 func (t *bodyTr) doCall(call *ast.CallExpr) []int {
@@ -1141,35 +1288,12 @@ func (t *bodyTr) doCall(call *ast.CallExpr) []int {
 			anyArg = true
 		}
 	}
+	rts := t.resultTypes(call)
 	setRes := func(i int, roots uint64, seen, tracked bool) {
 		if i >= len(rk) || (rk[i] != kSlice && rk[i] != kObj) {
 			return
 		}
-		r := t.newReg("")
-		out[i] = r
-		if rk[i] == kObj && !tracked {
-			t.emit(&node{op: "opaque", r: r, pos: -1, line: ln})
-			return
-		}
-		if !seen || roots == 0 {
-			t.emit(&node{op: "make", r: r, pos: -1, line: ln})
-			return
-		}
-		var vs []int
-		opq := roots&opaqueBit != 0
-		for p := 0; p < len(args) && p < 62; p++ {
-			if roots&(1<<uint(p)) != 0 {
-				if len(args[p]) == 0 {
-					opq = true
-				}
-				vs = append(vs, args[p]...)
-			}
-		}
-		if opq || len(vs) == 0 {
-			t.emit(&node{op: "opaque", r: r, pos: -1, line: ln})
-			return
-		}
-		t.emit(&node{op: "phi", r: r, vs: vs, pos: -1, line: ln})
+		out[i] = t.resultReg(call, rts[i], resInfo{roots: roots, seen: seen, tracked: tracked}, args)
 	}
 	if isLibPkg(fn.Pkg()) {
 		var sms []*summary
@@ -1198,29 +1322,22 @@ func (t *bodyTr) doCall(call *ast.CallExpr) []int {
 		}
 		n := len(args)
 		mut, keep := make([]bool, n), make([]bool, n)
+		stores := make([]uint64, n)
 		res := make([]resInfo, len(rk))
+		var keys []string
 		for _, s := range sms {
+			keys = append(keys, s.key)
 			for i := 0; i < n && i < len(s.mut); i++ {
 				mut[i] = mut[i] || s.mut[i]
 				keep[i] = keep[i] || s.keep[i]
+				if i < len(s.stores) {
+					stores[i] |= s.stores[i]
+				}
 			}
 			for i := 0; i < len(rk) && i < len(s.res); i++ {
 				res[i].roots |= s.res[i].roots
 				res[i].seen = res[i].seen || s.res[i].seen
 				res[i].tracked = res[i].tracked || s.res[i].tracked
-			}
-		}
-		for i := 0; i < n; i++ {
-			for _, v := range args[i] {
-				if mut[i] {
-					if t.objArg[v] {
-						t.mutObjArg = true
-					}
-					t.emit(&node{op: "write", v: v, pos: -1, why: "mut", line: ln})
-				}
-				if keep[i] {
-					t.emit(&node{op: "escape", v: v, pos: -1, why: "ret", line: ln})
-				}
 			}
 		}
 		// a byte value handed to an interface-typed parameter of a library function cannot be followed,
@@ -1231,23 +1348,27 @@ func (t *bodyTr) doCall(call *ast.CallExpr) []int {
 				followed = false
 			}
 		}
-		base := 0
-		if sig.Recv() != nil {
-			base = 1
-		}
-		for pi := 0; pi < sig.Params().Len(); pi++ {
-			pt := sig.Params().At(pi).Type()
-			if sig.Variadic() && pi == sig.Params().Len()-1 {
-				if sl, ok := pt.(*types.Slice); ok {
-					pt = sl.Elem()
+		eff := t.sub(func() {
+			t.applyEffects(call, args, mut, keep, stores)
+			base := 0
+			if sig.Recv() != nil {
+				base = 1
+			}
+			for pi := 0; pi < sig.Params().Len(); pi++ {
+				pt := sig.Params().At(pi).Type()
+				if sig.Variadic() && pi == sig.Params().Len()-1 {
+					if sl, ok := pt.(*types.Slice); ok {
+						pt = sl.Elem()
+					}
+				}
+				if kindOf(pt) == kNone && !followed {
+					for _, v := range args[base+pi] {
+						t.emit(&node{op: "escape", v: v, pos: -1, why: "ret", line: ln})
+					}
 				}
 			}
-			if kindOf(pt) == kNone && !followed {
-				for _, v := range args[base+pi] {
-					t.emit(&node{op: "escape", v: v, pos: -1, why: "ret", line: ln})
-				}
-			}
-		}
+		})
+		t.emit(&node{op: "call", callees: keys, cargs: args, kids: []*node{eff}, pos: -1, line: ln})
 		for i := range rk {
 			setRes(i, res[i].roots, res[i].seen, res[i].tracked)
 		}
@@ -1275,7 +1396,7 @@ func (t *bodyTr) doCall(call *ast.CallExpr) []int {
 		}
 		for i, k := range rk {
 			if k == kObj {
-				out[i] = t.tmpOpaque(call)
+				out[i] = t.objTmpOpaque(call)
 			}
 		}
 		return out
@@ -1300,7 +1421,27 @@ func (t *bodyTr) doCall(call *ast.CallExpr) []int {
 			}
 		}
 	}
-	if len(rk) > 0 && (rk[0] == kSlice || rk[0] == kObj) {
+	if len(rk) > 0 && (rk[0] == kSlice || rk[0] == kObj) && isObjLike(rts[0]) {
+		switch eff.res {
+		case "opaque":
+			out[0] = t.objTmpOpaque(call)
+		case "", "fresh":
+			out[0] = t.objTmpMake(call)
+		default: // a view of some argument(s): possibly the argument object itself
+			T := t.objTmpMake(call)
+			vs := []int{T}
+			for i, a := range args {
+				if eff.res == "any" || eff.res == fmt.Sprint(i) {
+					vs = append(vs, a...)
+				}
+			}
+			if len(vs) == 1 {
+				vs = append(vs, t.objTmpOpaque(call))
+			}
+			t.emit(&node{op: "phi", r: T, vs: vs, pos: -1, line: ln})
+			out[0] = T
+		}
+	} else if len(rk) > 0 && (rk[0] == kSlice || rk[0] == kObj) {
 		r := t.newReg("")
 		out[0] = r
 		switch {
@@ -1322,8 +1463,6 @@ func (t *bodyTr) doCall(call *ast.CallExpr) []int {
 				vs = args[0]
 			}
 			t.emit(&node{op: "concat", r: r, vs: vs, pos: -1, line: ln})
-		case rk[0] == kObj:
-			t.emit(&node{op: "opaque", r: r, pos: -1, line: ln})
 		case eff.res == "opaque":
 			t.emit(&node{op: "opaque", r: r, pos: -1, line: ln})
 		case eff.res == "any":
@@ -1349,10 +1488,14 @@ func (t *bodyTr) doCall(call *ast.CallExpr) []int {
 		}
 	}
 	for i := 1; i < len(rk); i++ {
-		if rk[i] == kSlice {
+		switch {
+		case rk[i] == kSlice && !isObjLike(rts[i]) && i == 1 && eff.res1 == "fresh":
 			out[i] = t.tmpMake(call)
-		} else if rk[i] == kObj {
-			out[i] = t.tmpOpaque(call)
+		case rk[i] == kSlice && !isObjLike(rts[i]):
+			// the table speaks for the first result (and, where it says so, the second) only
+			t.fail("external callee %s has a byte-slice result at position %d", key, i)
+		case rk[i] == kSlice || rk[i] == kObj:
+			out[i] = t.objTmpOpaque(call)
 		}
 	}
 	return out
@@ -1532,12 +1675,28 @@ func (t *bodyTr) dynamicCall(call *ast.CallExpr, csig *types.Signature, rk []bki
 	}
 	n := len(args)
 	mut, keep := make([]bool, n), make([]bool, n)
+	stores := make([]uint64, n)
 	res := make([]resInfo, len(rk))
+	var keys []string
+	unshift := func(roots uint64, sh int) uint64 {
+		if sh == 0 {
+			return roots
+		}
+		r2 := roots & opaqueBit
+		if roots&1 != 0 {
+			r2 |= opaqueBit // the bound receiver
+		}
+		return r2 | (roots&^opaqueBit)>>1
+	}
 	for j, s := range sms {
 		sh := shifts[j]
+		keys = append(keys, s.key)
 		for i := 0; i < n && i+sh < len(s.mut); i++ {
 			mut[i] = mut[i] || s.mut[i+sh]
 			keep[i] = keep[i] || s.keep[i+sh]
+			if i+sh < len(s.stores) {
+				stores[i] |= unshift(s.stores[i+sh], sh)
+			}
 		}
 		for i := 0; i < len(rk) && i < len(s.res); i++ {
 			roots := s.res[i].roots
@@ -1554,45 +1713,14 @@ func (t *bodyTr) dynamicCall(call *ast.CallExpr, csig *types.Signature, rk []bki
 			res[i].tracked = res[i].tracked || s.res[i].tracked
 		}
 	}
-	for i := 0; i < n; i++ {
-		for _, v := range args[i] {
-			if mut[i] {
-				t.emit(&node{op: "write", v: v, pos: -1, why: "mut", line: ln})
-			}
-			if keep[i] {
-				t.emit(&node{op: "escape", v: v, pos: -1, why: "ret", line: ln})
-			}
-		}
-	}
+	eff := t.sub(func() { t.applyEffects(call, args, mut, keep, stores) })
+	t.emit(&node{op: "call", callees: keys, shifts: shifts, cargs: args, kids: []*node{eff}, pos: -1, line: ln})
+	rts := t.resultTypes(call)
 	for i := range rk {
 		if rk[i] != kSlice && rk[i] != kObj {
 			continue
 		}
-		r := t.newReg("")
-		out[i] = r
-		roots := res[i].roots
-		switch {
-		case rk[i] == kObj && !res[i].tracked:
-			t.emit(&node{op: "opaque", r: r, pos: -1, line: ln})
-		case !res[i].seen || roots == 0:
-			t.emit(&node{op: "make", r: r, pos: -1, line: ln})
-		default:
-			var vs []int
-			opq := roots&opaqueBit != 0
-			for p := 0; p < n && p < 62; p++ {
-				if roots&(1<<uint(p)) != 0 {
-					if len(args[p]) == 0 {
-						opq = true
-					}
-					vs = append(vs, args[p]...)
-				}
-			}
-			if opq || len(vs) == 0 {
-				t.emit(&node{op: "opaque", r: r, pos: -1, line: ln})
-			} else {
-				t.emit(&node{op: "phi", r: r, vs: vs, pos: -1, line: ln})
-			}
-		}
+		out[i] = t.resultReg(call, rts[i], res[i], args)
 	}
 	return out, true
 }
